@@ -142,7 +142,8 @@ def return_shapes(chk: Check) -> None:
         n += 1
         cfg = cfg_of(f)
         rets = [r for r in cfg.nodes if r.kind == 'return']
-        ok = all(isinstance(r.ast.value, ast.Tuple) and len(r.ast.value.elts) == 2 for r in rets)
+        _rs = Resolver(f)   # (``nothing_to_do = (True, None)`` ; ``return nothing_to_do``)
+        ok = all(isinstance(_rs.expand(r.ast.value), ast.Tuple) and len(_rs.expand(r.ast.value).elts) == 2 for r in rets)
         # no path falls off the end
         falls = [p for p, l in cfg.exit.pred if p.kind != 'return']
         chk.ob('DOM-step-shape', f, ok and not falls, f'every non-raising path of {c.name}.step returns a (finished, value) pair', kind='two-tuple')
@@ -200,10 +201,10 @@ def if_stepper(chk: Check) -> None:
         ok = cfg.must_pass(cfg.entry, [t], lambda m: m is nt, edge_ok=no_exc) and t.id not in cfg.reachable([s for s, l in nt.succ if l == other], include_src=True, edge_ok=no_exc)
     chk.ob('DOM-if-short-circuit', f, ok, 'predicates are evaluated only when no branch is being executed (a chosen branch is never re-decided)', kind='only-without-child')
     creates = [c for c in calls_in_func(f, 'create_stepper')]
-    ok = len(creates) == 1 and norm(creates[0].func.value) == 'self._if_instruction[self._pos].body'
+    ok = len(creates) == 1 and norm(Resolver(f).expand(creates[0].func.value)) == 'self._if_instruction[self._pos].body'
     chk.ob('DOM-if-short-circuit', f, ok, 'the branch executed is the body of the conditional at the position the search stopped at', kind='child-from-position')
     # none true -> finished with None
-    fin_ret = [r for r in cfg.nodes if r.kind == 'return' and norm(r.ast.value) == '(True, None)']
+    fin_ret = [r for r in cfg.nodes if r.kind == 'return' and norm(Resolver(f).expand(r.ast.value)) == '(True, None)']
     chk.ob('DOM-if-short-circuit', f, len(fin_ret) >= 1, 'with no true predicate the if_ is finished without running anything', kind='none-true')
     # a finished branch finishes the whole if_
     done = [n for n in cfg.nodes if n.kind == 'stmt' and isinstance(n.ast, ast.Assign) and norm(n.ast.targets[0]) == 'self._pos' and norm(n.ast.value) == 'len(self._if_instruction)']
